@@ -37,7 +37,9 @@ RULE_ADDED = (
               'swers). '
               ' '
               'Round 9: a certificate of the SGX chain re-issued by a key of another signature '
-              'algorithm. ')
+              'algorithm. '
+              ' '
+              "Round 10: the UI vouching for another of the operator's own keys. ")
 RULE = RULE + " " + RULE_ADDED.strip()
 ASSUMPTIONS = [
     "stdout of the commands is parsed by label ('UD value:', 'Hash:', ...)",
@@ -115,7 +117,8 @@ LEDGER_VARIANTS = ["genuine", "genuine-reordered", "key-replaced", "btc-key-repl
                    "ui-extended", "ui-truncated", "pubkeys-not-json", "pubkey-invalid",
                    "legacy-len+1", "legacy-len-1", "legacy-len+32", "genuine-odd-paths",
                    "odd-paths-hash-in-numeric-order", "forged-extra-targets",
-                   "forged-extra-targets", "flip-signature-extra-targets"]
+                   "forged-extra-targets", "flip-signature-extra-targets",
+                   "ui-key-is-another-of-the-operator-keys"]
 
 
 def tail_bytes(rng, n):
@@ -244,6 +247,12 @@ def ledger_case(acc, rng, variant, tmpdir, case):
         expect_ok = False
     elif variant == "ui-other-seed-key":
         m, f = la.ui_message(rng, g1.pub33(g1.new_key(rng)))
+        la.resign(doc, info, "ui", m, rng)
+        expect_ok = False
+    elif variant == "ui-key-is-another-of-the-operator-keys":
+        # the UI vouches for one of the operator's own keys - but not the BTC one
+        other = rng.choice([p_ for p_ in keys if p_ != la.BTC_PATH])
+        m, f = la.ui_message(rng, g1.pub33(keys[other]))
         la.resign(doc, info, "ui", m, rng)
         expect_ok = False
     elif variant == "missing-ui-target":
@@ -576,8 +585,11 @@ def run_case(acc, cseed, tmpdir):
 
 def run_shard(spec, acc):
     env.setup()
+    if spec.get("shard", spec.get("seed", 0)) % 4 >= 2 and env.on_other_fs():
+        acc.count("shards_with_files_on_another_file_system_than_the_temp_directory")
     rng = random.Random(spec["seed"])
-    tmpdir = env.mkdtemp("c08", spec.get("shard", spec.get("seed", 0)) % 2 == 1)
+    tmpdir = env.mkdtemp("c08", spec.get("shard", spec.get("seed", 0)) % 2 == 1,
+                         other_fs=spec.get("shard", spec.get("seed", 0)) % 4 >= 2)
     try:
         for i in range(spec["n"]):
             run_case(acc, rng.getrandbits(48), tmpdir)
